@@ -375,6 +375,22 @@ func (c *Ctx) boundsStats(pkgs []string) map[string]*boundsStat {
 				st.firstUnproven = c.P.InstrPos(a.instr) + " " + a.what
 			}
 		}
+		for _, a := range symAccessesOf(fn) {
+			fk := ir.OuterKey(fn)
+			st := out[fk]
+			if st == nil {
+				st = &boundsStat{ByKind: map[string]int{}, ProvenByKind: map[string]int{}}
+				out[fk] = st
+			}
+			st.Total++
+			st.ByKind[a.what]++
+			if symProven(a) {
+				st.Proven++
+				st.ProvenByKind[a.what]++
+			} else if st.firstUnproven == "" {
+				st.firstUnproven = c.P.InstrPos(a.instr) + " " + a.what
+			}
+		}
 	}
 	return out
 }
@@ -382,7 +398,7 @@ func (c *Ctx) boundsStats(pkgs []string) map[string]*boundsStat {
 // ruleConstBounds: accesses that the prover could show in bounds on the reviewed tree stay in bounds.
 func (c *Ctx) ruleConstBounds(rule string, pkgs []string, baselineFile string, min int) {
 	r := c.R
-	r.Rule(rule, "length-guard ratchet for wire bytes: a small prover establishes lower bounds on len(x) from comparisons of len(x) with constants (through re-slicing x = x[c:], phis, and the bounds every caller of a helper establishes) and counts, per decode function, the constant-offset accesses x[k], x[:k], x[k:], binary.UintN(x) it can show in bounds. The committed baseline records those counts for the reviewed tree; a function whose accesses are unchanged in number and kind but of which fewer are provably in bounds has had a length check weakened, moved or removed. Functions whose shape changed, and accesses at non-constant offsets, are not decided", min)
+	r.Rule(rule, "length-guard ratchet for wire bytes: a small prover establishes lower bounds on len(x) from comparisons of len(x) with constants (through re-slicing x = x[c:], phis, and the bounds every caller of a helper establishes) and counts, per decode function, the constant-offset accesses x[k], x[:k], x[k:], binary.UintN(x) it can show in bounds, and the accesses at a variable offset x[v+c], x[:v+c], x[v+c:], binary.UintN(x[v+c:]) for which a dominating branch compares that very v (plus a large enough constant) with len(x). The committed baseline records those counts for the reviewed tree; a function whose accesses are unchanged in number and kind but of which fewer are provably in bounds has had a length check weakened, moved or removed. Functions whose shape changed are not decided", min)
 	var base map[string]*boundsStat
 	b, err := os.ReadFile(filepath.Join(homeDir(), baselineFile))
 	if err != nil || json.Unmarshal(b, &base) != nil {
@@ -577,4 +593,180 @@ func (c *Ctx) ruleNoPrefilledPointers(rule string, pkgs []string, min int) {
 			}
 		}
 	}
+}
+
+// ---- accesses at a variable offset -------------------------------------------------------------------
+
+// lin: e = base + c with c a constant (base nil when e is constant).
+func lin(e ssa.Value) (ssa.Value, int64) {
+	e = stripConv(e)
+	if k, ok := constI(e); ok {
+		return nil, k
+	}
+	if bo, ok := e.(*ssa.BinOp); ok {
+		switch bo.Op {
+		case token.ADD:
+			if k, ok := constI(bo.Y); ok {
+				b, c := lin(bo.X)
+				return b, c + k
+			}
+			if k, ok := constI(bo.X); ok {
+				b, c := lin(bo.Y)
+				return b, c + k
+			}
+		case token.SUB:
+			if k, ok := constI(bo.Y); ok {
+				b, c := lin(bo.X)
+				return b, c - k
+			}
+		}
+	}
+	return e, 0
+}
+
+type symAccess struct {
+	arrN  int64     // > 0: x is a fixed-size byte array of that length and idx is the index / upper slice bound
+	idx   ssa.Value
+	instr ssa.Instruction
+	x     ssa.Value // the byte slice
+	base  ssa.Value // variable part of the offset
+	need  int64     // base + need <= len(x) must hold
+	what  string
+}
+
+// byteArrayLen: N when t is [N]byte or *[N]byte, else 0.
+func byteArrayLen(t types.Type) int64 {
+	if p, ok := t.Underlying().(*types.Pointer); ok {
+		t = p.Elem()
+	}
+	a, ok := t.Underlying().(*types.Array)
+	if !ok {
+		return 0
+	}
+	if b, ok := a.Elem().Underlying().(*types.Basic); !ok || b.Kind() != types.Uint8 {
+		return 0
+	}
+	return a.Len()
+}
+
+// symAccessesOf: reads of []byte values at offsets base+c with a non-constant base.
+func symAccessesOf(fn *ssa.Function) []symAccess {
+	var out []symAccess
+	for _, b := range fn.Blocks {
+		for _, in := range b.Instrs {
+			switch x := in.(type) {
+			case *ssa.IndexAddr:
+				if !isBytes(x.X.Type()) {
+					continue
+				}
+				if base, c := lin(x.Index); base != nil {
+					out = append(out, symAccess{instr: x, x: x.X, base: base, need: c + 1, what: "[v]"})
+				}
+			case *ssa.Slice:
+				if n := byteArrayLen(x.X.Type()); n > 0 && x.High != nil {
+					if _, isK := constI(x.High); !isK {
+						out = append(out, symAccess{arrN: n, idx: x.High, instr: x, x: x.X, what: "array[:v]"})
+					}
+					continue
+				}
+				if !isBytes(x.X.Type()) {
+					continue
+				}
+				if x.High != nil {
+					if base, c := lin(x.High); base != nil {
+						out = append(out, symAccess{instr: x, x: x.X, base: base, need: c, what: "[:v]"})
+					}
+				} else if x.Low != nil {
+					if base, c := lin(x.Low); base != nil {
+						out = append(out, symAccess{instr: x, x: x.X, base: base, need: c, what: "[v:]"})
+					}
+				}
+			case *ssa.Call:
+				callee := x.Call.StaticCallee()
+				if callee == nil || callee.Pkg == nil || callee.Pkg.Pkg.Path() != "encoding/binary" || len(x.Call.Args) < 2 {
+					continue
+				}
+				n := map[string]int64{"Uint16": 2, "Uint32": 4, "Uint64": 8}[callee.Name()]
+				sl, ok := x.Call.Args[1].(*ssa.Slice)
+				if n == 0 || !ok || !isBytes(sl.X.Type()) || sl.Low == nil {
+					continue
+				}
+				// binary.UintN(x[v+c:]) or x[v+c : v+c+n]: needs v+c+n <= len(x)
+				if base, c := lin(sl.Low); base != nil {
+					out = append(out, symAccess{instr: x, x: sl.X, base: base, need: c + n, what: "binary." + callee.Name() + "[v:]"})
+				}
+			}
+		}
+	}
+	return out
+}
+
+// symProven: a dominating branch establishes base + need <= len(x).
+func symProven(a symAccess) bool {
+	at := a.instr.Block()
+	if a.arrN > 0 {
+		// the bound is the array's fixed length: an upper bound of the index from its type, conversions and
+		// dominating comparisons with constants
+		return upperBound(a.idx, at, 0) <= uint64(a.arrN)
+	}
+	for d := at; d != nil; d = d.Idom() {
+		g := d.Idom()
+		if g == nil {
+			break
+		}
+		iff, ok := g.Instrs[len(g.Instrs)-1].(*ssa.If)
+		if !ok {
+			continue
+		}
+		bo, ok := iff.Cond.(*ssa.BinOp)
+		if !ok {
+			continue
+		}
+		onTrue := g.Succs[0] == d && len(d.Preds) == 1
+		onFalse := g.Succs[1] == d && len(d.Preds) == 1
+		if !onTrue && !onFalse {
+			continue
+		}
+		op := bo.Op
+		if onFalse {
+			switch op {
+			case token.LSS:
+				op = token.GEQ
+			case token.LEQ:
+				op = token.GTR
+			case token.GTR:
+				op = token.LEQ
+			case token.GEQ:
+				op = token.LSS
+			default:
+				continue
+			}
+		}
+		// normalise to  L <= R + slack  with one side len(x):   want  base + c (+1 if strict) <= len(x)
+		isLen := func(v ssa.Value) bool {
+			l := lenOf(stripConv(v))
+			return l != nil && (l == a.x || sameSym(l, a.x))
+		}
+		var off ssa.Value
+		strict := false
+		switch {
+		case isLen(bo.Y) && (op == token.LEQ || op == token.LSS): // off <=/< len
+			off, strict = bo.X, op == token.LSS
+		case isLen(bo.X) && (op == token.GEQ || op == token.GTR): // len >=/> off
+			off, strict = bo.Y, op == token.GTR
+		default:
+			continue
+		}
+		base, c := lin(off)
+		if base == nil || !(base == a.base || sameSym(base, a.base)) {
+			continue
+		}
+		if strict {
+			c++
+		}
+		if c >= a.need {
+			return true
+		}
+	}
+	return false
 }
